@@ -64,9 +64,24 @@ def mk_enum(n):
 _ENUMS = {}
 
 
+def spec_width(E):
+    """the number of filter bits an event-filter enum needs, from its members alone (8, 16 or 24): what part 103
+    calls the filter's width, computed without asking the library"""
+    top = max([int(m.value).bit_length() for m in E] + [1])
+    return 8 * ((top + 7) // 8)
+
+
 def enum_by_name(name):
     if name in _ENUMS:
         return _ENUMS[name]
+    if not _ENUMS:
+        # the generic base class is asked for its width before any enum of this run exists (it has no members; it
+        # may answer or raise): what it answers must not rub off on the enums declared afterwards
+        try:
+            from dali.device.general import InstanceEventFilter
+            InstanceEventFilter.dali_width()
+        except Exception:   # noqa
+            pass
     if name.startswith("user"):
         e = mk_enum(int(name[4:]))
     else:
@@ -185,10 +200,10 @@ def seq_line(call):
     if k == "schemes":
         return "seq schemes %d %d %d" % (call["a"], call["i"], call["scheme"])
     if k == "setfilter":
-        w = "-" if call["enum"] is None else str(enum_by_name(call["enum"]).dali_width())
+        w = "-" if call["enum"] is None else str(spec_width(enum_by_name(call["enum"])))
         return "seq setfilter %d %d %s %d" % (call["a"], call["i"], w, call["value"])
     if k == "queryfilter":
-        return "seq queryfilter %d %d %d" % (call["a"], call["i"], enum_by_name(call["enum"]).dali_width())
+        return "seq queryfilter %d %d %d" % (call["a"], call["i"], spec_width(enum_by_name(call["enum"])))
     if k == "inputvalue":
         return "seq inputvalue %d %d %s" % (call["a"], call["i"], "-" if call["res"] is None else call["res"])
     if k == "autodiscover":
@@ -360,7 +375,14 @@ def _correspond(ctx, corr, rng, T, ls):
     n = 0
     for en in ENUM_NAMES:
         E = enum_by_name(en)
-        w = E.dali_width()
+        w = spec_width(E)
+        try:
+            lw = E.dali_width()
+        except Exception as e:  # noqa
+            lw = "raises " + type(e).__name__
+        if lw != w:
+            corr.violate("filter:width", {"enum": en, "members": len(list(E))}, w, lw,
+                         "the filter enum's width is not the width its members need")
         vals = {0, (1 << w) - 1, 0xABCDEF & ((1 << w) - 1), 0x800000 >> (24 - w), 1 << (w - 1)}
         vals |= {1 << b for b in range(w)} if (T or en.startswith("user")) else {1, 1 << (w - 1)}
         for _ in range(40 if T else 12):
